@@ -949,12 +949,12 @@ def run(ctx):
     if ctx.tier == "thorough":
         pairs2 = [{"kind": "pair", "a": a, "b": b, "src": "universe2"} for a in u2 for b in u2]
     else:
-        pairs2 = [{"kind": "pair", "a": rng.choice(u2), "b": rng.choice(u2), "src": "universe2"} for _ in range(ctx.n(7000, 0))]
+        pairs2 = [{"kind": "pair", "a": rng.choice(u2), "b": rng.choice(u2), "src": "universe2"} for _ in range(ctx.n(5500, 0))]
     for k in range(0, len(pairs2), 50000):
         check_pairs(ctx, pairs2[k:k + 50000], laws_every=23 if ctx.tier == "thorough" else 11)
     # 3. depth <= 3 related pairs; one in eight with string metadata in Annotated, one in eight spelling unions `X | Y`
     rel = []
-    for _ in range(ctx.n(5500, 150000)):
+    for _ in range(ctx.n(4500, 150000)):
         a, b, src = gen_pair(rng)
         rel.append({"kind": "pair", "a": a, "b": b, "src": src, "meta": rng.choice(["class"] * 6 + ["str", "pipe"])})
     for k in range(0, len(rel), 50000):
